@@ -119,6 +119,8 @@ func init() {
 			c.runArgSwap("ARGSWAP", pkgs, baseIn("light.go", "focus_point.go", "material.go"), nil)
 			c.floor("ARGSWAP", 40)
 			c.floor("ARGROLE", 40)
+			c.runSamplerPair("SAMPLERPAIR", c.libPkgs()[3:4])
+			c.floor("SAMPLERPAIR", 3)
 			// area-proportional selection of a triangle / sub-light
 			c.runCumTab("CUMTAB", c.libPkgs()[3:4], nil)
 			c.floor("CUMTAB", 2)
